@@ -63,9 +63,10 @@ def lib_functions(reg, counter, falsy=False):
             arg_types = [tmap[p] for p in sig["params"]]
             return_type = tmap[ret]
 
-            def __call__(self, *a, _ret=ret):
+            def __call__(self, *a):
                 counter[0] += 1
-                return 1 if _ret == VALUE else True if _ret == LOGICAL else JSONPathNodeList()
+                _ret = self.return_type     # read when called: the declaration may have been changed in place
+                return 1 if _ret == ExpressionType.VALUE else True if _ret == ExpressionType.LOGICAL else JSONPathNodeList()
 
         if falsy and i % 2 == 0:
             # a perfectly legal function object that happens to be falsy (it has a length of zero)
@@ -87,6 +88,22 @@ def lib_env(reg, bounds, counter, falsy=False, warmup=None):
     lib.compile_(q0, env)
     if how == "rebind":
         env.function_extensions = dict(fns)
+    elif how == "retype-objects":
+        # the registered OBJECTS stay; their declared parameter / result types are changed in place
+        ext = env.function_extensions
+        for name in list(ext):
+            if name not in reg:
+                del ext[name]
+        for name, fn in fns.items():
+            if name in ext:
+                if len(name) % 2:
+                    ext[name].arg_types = list(fn.arg_types)
+                    ext[name].return_type = fn.return_type
+                else:
+                    type(ext[name]).arg_types = list(fn.arg_types)
+                    type(ext[name]).return_type = fn.return_type
+            else:
+                ext[name] = fn
     else:
         env.function_extensions.clear()
         env.function_extensions.update(fns)
@@ -282,10 +299,21 @@ def sigs(reg):
     return {n: "(" + ",".join(p[0] for p in f["params"]) + ")->" + f["ret"][0] for n, f in reg.items()}
 
 
+
+def _with_interpreter_variants(specs, tier, n_small, extra=None):
+    """The same shard body in child interpreters started with other flags / environment variables."""
+    from vlib.runner import INTERPRETERS
+    base = dict(extra or {})
+    for name in INTERPRETERS:
+        s = dict(base, n=n_small if tier == "quick" else n_small * 6, interp=name)
+        specs.append(s)
+    return specs
+
+
 def plan(tier, seed):
     if tier == "quick":
-        return [{"n": 1000} for _ in range(16)]
-    return [{"n": 10000} for _ in range(16)]
+        return _with_interpreter_variants([{"n": 1000} for _ in range(16)], tier, 150)
+    return _with_interpreter_variants([{"n": 10000} for _ in range(16)], tier, 150)
 
 
 def run_shard(spec, shard):
@@ -323,8 +351,13 @@ def run_shard(spec, shard):
         case = {"q": text, "registry": reg, "bounds": list(bounds) if bounds else None}
         if r.random() < 0.3:
             case["falsy"] = True
-        if r.random() < 0.25:
+        if r.random() < 0.3:
             reg0 = make_registry(r)
+            how0 = r.choice(["rebind", "rebind", "in-place", "retype-objects", "retype-objects"])
+            if how0 == "retype-objects":
+                # the same names with other declarations
+                reg0 = {name: ({"params": [r.choice(TYPES) for _ in range(r.choice([len(sg["params"])] * 3 + [0, 1, 2]))], "ret": r.choice(TYPES)}
+                               if r.random() < 0.8 else {"params": list(sg["params"]), "ret": sg["ret"]}) for name, sg in reg.items()}
             g0 = Q.QGen(r, names=["a", "b"], registry=reg0, filters=True, max_filter_depth=1)
             callable0 = [n for n in reg0]
             q0 = None
@@ -334,7 +367,7 @@ def run_shard(spec, shard):
                     q0 = Q.canonical(["q", "$", [["child", [["filter", e0]]]]])
                     break
             if q0:
-                case["warmup"] = {"registry": reg0, "q": q0, "how": r.choice(["rebind", "rebind", "in-place"])}
+                case["warmup"] = {"registry": reg0, "q": q0, "how": how0}
         pos = "top" if depth == 0 else "nested" if depth == 1 else "deep"
         shard.case(key=(text, sigs(reg), bounds), nontrivial=nt,
                    classes={"fault:" + fault, "expected:" + exp, f"{fault}@{pos}",
